@@ -138,9 +138,17 @@ func (c14MW) UpdateRequest(req *http.Request) error {
 	return nil
 }
 
-func c14InFlight(preload bool, passes uint) (out []string, runErr error) {
+func c14InFlight(raw bool, preload bool, passes uint) (out []string, runErr error) {
 	file := "[H: v]\n1 /a t1\nx\n2 /b t2\nyz\n"
 	conf := config.Config{Decoder: config.DecoderURIPost, Passes: passes, Preload: preload}
+	if raw {
+		one := func(p, tag, body string) string {
+			req := "POST " + p + " HTTP/1.1\r\nHost: h\r\nH: v\r\nContent-Length: " + itoa(len(body)) + "\r\n\r\n" + body
+			return itoa(len(req)) + " " + tag + "\n" + req
+		}
+		file = one("/a", "t1", "x") + "\n" + one("/b", "t2", "yz") + "\n"
+		conf.Decoder = config.DecoderRaw
+	}
 	d, err := decoders.NewDecoder(conf, strings.NewReader(file))
 	vCheck("D0.decoder.created", err == nil)
 	p := &Provider{Config: conf, Decoder: d, Sink: make(chan decoders.DecodedAmmo)}
@@ -190,8 +198,9 @@ func c14InFlight(preload bool, passes uint) (out []string, runErr error) {
 
 func HarnessC14InFlight() {
 	passes := uint(vConcretize(vNondetInt("passes", 1, 3)))
-	s, serr := c14InFlight(false, passes)
-	p, perr := c14InFlight(true, passes)
+	raw := vNondetBool("raw") // uripost, or raw entries with a body (POST + Content-Length)
+	s, serr := c14InFlight(raw, false, passes)
+	p, perr := c14InFlight(raw, true, passes)
 	one := []string{"POST /a t1 x H=v D=now", "POST /b t2 yz H=v D=now"}
 	vCheck("P1.inflight.same.length", len(s) == len(p) && len(s) == 2*int(passes))
 	for i := range s {
